@@ -77,7 +77,9 @@ func updateSelfRefs(node core_domain.CodeDataStruct, method core_domain.CodeFunc
 
 	for i, line := range lines {
 		if i == method.Position.StartLine-1 {
-			newLine := line[:method.Position.StartLinePosition] + info.Method + line[method.Position.StopLinePosition:]
+			// positions are rune columns (ANTLR), not byte offsets
+			runes := []rune(line)
+			newLine := string(runes[:method.Position.StartLinePosition]) + info.Method + string(runes[method.Position.StopLinePosition:])
 			lines[i] = newLine
 		}
 	}
